@@ -870,6 +870,10 @@ def externals(interp: Any, name: str) -> Optional[ModuleVal]:
             for n in ("Optional", "Tuple", "Dict", "List", "Callable", "Union", "Sequence", "Iterable", "Any", "Type", "Set", "TypeGuard", "Iterator", "OrderedDict"):
                 ents[n] = SubscriptableTok(n)
             ents["no_type_check"] = B("no_type_check", lambda it, a, k: a[0])
+        if name == "dataclasses":
+            from .builtins_model import FieldSpec
+
+            ents["field"] = B("dataclasses.field", lambda it, a, k: FieldSpec(k))
         if name == "collections":
             ents["OrderedDict"] = B("OrderedDict", lambda it, a, k: dict(*a, **k))
         if name == "logging":
